@@ -91,9 +91,26 @@ def nontrivial_input(b: bytes) -> bool:
         isinstance(toks[0][2], tuple))
 
 
+class _Alarm(BaseException):
+    pass
+
+
+def _on_alarm(signum, frame):
+    raise _Alarm()
+
+
+_handler_installed = False
+PER_INPUT_SECONDS = 2.0  # loads of a <=64 KB input normally takes microseconds
+
+
 def judge(gb, data: bytes, flags=(False, False), expect_fail=False):
     """Run loads(data) under the oracle.  -> 'value' | 'DataFormatError' | 'EOFError'.
-    Raises Violation."""
+    Raises Violation (also for non-termination: a 2 s interval timer per input)."""
+    global _handler_installed
+    if not _handler_installed:
+        signal.signal(signal.SIGALRM, _on_alarm)
+        _handler_installed = True
+    signal.setitimer(signal.ITIMER_REAL, PER_INPUT_SECONDS)
     arm()
     try:
         try:
@@ -103,12 +120,15 @@ def judge(gb, data: bytes, flags=(False, False), expect_fail=False):
             out = "DataFormatError"
         except EOFError:
             out = "EOFError"
+        except _Alarm as e:
+            disarm()
+            raise Violation("loads.nontermination", f"no result within {PER_INPUT_SECONDS} s for a {len(data)}-byte input",
+                            exc=e) from None
         except BaseException as e:  # noqa: BLE001
             disarm()
-            if isinstance(e, _Alarm):
-                raise
             raise Violation("loads.wrong-exception", exc=e) from None
     finally:
+        signal.setitimer(signal.ITIMER_REAL, 0)
         disarm()
     if _events:
         ev = list(_events)
@@ -121,25 +141,11 @@ def judge(gb, data: bytes, flags=(False, False), expect_fail=False):
     return out
 
 
-class _Alarm(BaseException):
-    pass
+FUSE = 4  # after this many non-terminating inputs a shard stops executing further inputs (each costs 2 s)
 
 
-def _on_alarm(signum, frame):
-    raise _Alarm()
-
-
-class with_alarm:
-    def __init__(self, seconds):
-        self.s = seconds
-
-    def __enter__(self):
-        self.old = signal.signal(signal.SIGALRM, _on_alarm)
-        signal.alarm(self.s)
-
-    def __exit__(self, *a):
-        signal.alarm(0)
-        signal.signal(signal.SIGALRM, self.old)
+def fuse_blown(ctx):
+    return ctx.extra.get("nontermination_seen", 0) >= FUSE
 
 
 # ----------------------------------------------------------------------------- soups
@@ -213,11 +219,15 @@ class Soups(Part):
         if R.max_newlist(data) > NEWLIST_CAP:
             ctx.count("excluded_newlist_over_cap")
             return dict(labels=["excluded:newlist"], nontrivial=False)
-        with with_alarm(60):
-            try:
-                out = judge(gb, data, flags)
-            except _Alarm:
-                raise Violation("loads.nontermination", f"no result within 60 s for {len(data)} bytes") from None
+        if fuse_blown(ctx):
+            ctx.count("skipped_after_nontermination_fuse")
+            return dict(labels=["skipped:fuse"], nontrivial=False, count=0)
+        try:
+            out = judge(gb, data, flags)
+        except Violation as v:
+            if v.clause == "loads.nontermination":
+                ctx.count("nontermination_seen")
+            raise
         # agreement with the reference decoder on *whether* the input is acceptable (value vs error)
         labels = ["out:" + out]
         try:
@@ -258,6 +268,9 @@ class Mutants(Part):
         if case[0] == "input":
             judge(gb, case[1], expect_fail=(case[2] == "prefix"))
             return dict(nontrivial=True)
+        if fuse_blown(ctx):
+            ctx.count("skipped_after_nontermination_fuse")
+            return dict(labels=["skipped:fuse"], nontrivial=False, count=0)
         seed = R.ref_dumps(case[1])
         if len(seed) > 48:
             ctx.count("seeds_over_48_bytes_skipped")
@@ -266,6 +279,9 @@ class Mutants(Part):
         n = nt = 0
         viol = []
         lab = {}
+
+        class _Stop(Exception):
+            pass
 
         def one(data, kind):
             nonlocal n, nt
@@ -280,26 +296,28 @@ class Mutants(Part):
                 out = judge(gb, data, expect_fail=(kind == "prefix"))
             except Violation as v:
                 viol.append((v, ("input", data, kind)))
+                if v.clause == "loads.nontermination":
+                    ctx.count("nontermination_seen")
+                    raise _Stop() from None  # every further hang would cost another 2 s: end this neighbourhood
                 return
             lab[kind + ":" + out] = lab.get(kind + ":" + out, 0) + 1
             if nontrivial_input(data):
                 nt += 1
 
-        with with_alarm(120):
-            try:
-                for k in range(len(seed)):
-                    one(seed[:k], "prefix")
-                for k in range(len(seed)):
-                    one(seed[:k] + seed[k + 1:], "del")
-                    orig = seed[k]
-                    for b in range(256):
-                        if b != orig:
-                            one(seed[:k] + bytes([b]) + seed[k + 1:], "sub")
-                for k in range(len(seed) + 1):
-                    for b in range(256):
-                        one(seed[:k] + bytes([b]) + seed[k:], "ins")
-            except _Alarm:
-                raise Violation("loads.nontermination", "mutant batch did not finish within 120 s") from None
+        try:
+            for k in range(len(seed)):
+                one(seed[:k], "prefix")
+            for k in range(len(seed)):
+                one(seed[:k] + seed[k + 1:], "del")
+                orig = seed[k]
+                for b in range(256):
+                    if b != orig:
+                        one(seed[:k] + bytes([b]) + seed[k + 1:], "sub")
+            for k in range(len(seed) + 1):
+                for b in range(256):
+                    one(seed[:k] + bytes([b]) + seed[k:], "ins")
+        except _Stop:
+            pass
         return dict(count=n, nontrivial_count=nt, violations=viol, label_counts=lab, nontrivial=True,
                     sample={"seed": seed.hex(), "mutants": n})
 
@@ -350,13 +368,20 @@ class Fuzz(Part):
                 with open(os.path.join(corpus, f"seed{i}"), "wb") as f:
                     f.write(R.ref_dumps(v))
         args = [vt, os.path.join(tree.VERIF, "vlib", "fuzz_loads.py"), corpus, f"-seed={ctx.seed * 100 + shard + 1}",
-                "-max_len=256", "-print_final_stats=1"]
+                "-max_len=256", "-print_final_stats=1", "-timeout=5", f"-artifact_prefix={out}/artifact-"]
         if FUZZ_RUNS[ctx.tier]:
             args.append(f"-runs={FUZZ_RUNS[ctx.tier]}")
         else:
             args.append(f"-max_total_time={FUZZ_SECONDS[ctx.tier]}")
         env = tree.child_env({"VERIF_FUZZ_OUT": out, "VERIF_NEWLIST_CAP": str(NEWLIST_CAP)})
-        p = subprocess.run(args, env=env, stdout=subprocess.PIPE, stderr=subprocess.STDOUT, timeout=FUZZ_SECONDS[ctx.tier] + 900)
+        import resource
+
+        def unlimit():  # libFuzzer manages its own rss limit; give the child its address space back
+            hard = resource.getrlimit(resource.RLIMIT_AS)[1]
+            resource.setrlimit(resource.RLIMIT_AS, (hard, hard))
+
+        p = subprocess.run(args, env=env, stdout=subprocess.PIPE, stderr=subprocess.STDOUT, preexec_fn=unlimit,
+                           timeout=FUZZ_SECONDS[ctx.tier] + 900)
         log = p.stdout.decode("utf-8", "replace")
         stats = {}
         statfile = os.path.join(out, "stats.json")
@@ -365,11 +390,12 @@ class Fuzz(Part):
 
             with open(statfile) as f:
                 stats = json.load(f)
-        if p.returncode != 0 or not stats:
+        artifacts = [fn for fn in os.listdir(out) if fn.startswith("artifact-")]
+        if (p.returncode != 0 and not artifacts) or not stats:
             raise tree.HarnessError(f"atheris campaign failed rc={p.returncode}: {log[-1500:]}")
         viol = []
         for fn in sorted(os.listdir(out)):
-            if fn.startswith("viol-"):
+            if fn.startswith("viol-") or fn.startswith("artifact-"):
                 with open(os.path.join(out, fn), "rb") as f:
                     data = f.read()
                 try:
